@@ -66,6 +66,7 @@ def check(chk):
         _sort_cover(chk, cls)
         _sort_state(chk, cls)
     _post_compute_callers(chk)
+    _kernel_consistent(chk)
     chk.floor("PAIR.scores", 4)
     chk.floor("PAIR.helper", 2)
     chk.floor("SORT.key", 2)
@@ -244,6 +245,53 @@ def _pseudo_norm(chk, fit: FuncInfo, cname: str):
                               facts={"kind": kind, "N": src})
     if not found:
         raise AnalysisError(f"{fit.qualname}: pseudo-norm factor not found (anchor vanished)")
+
+
+def _kernel_consistent(chk):
+    """the rotation kernels return (rotated matrix, rotation matrix): the first must be a product with the second AS
+    RETURNED - a product formed before the rotation matrix was last updated (a value from inside the iteration) is one
+    step behind, and rotated components and rotated scores no longer belong to the same rotation"""
+    pm = chk.pm
+    mod = pm.modules.get("xeofs.linalg._numpy._rotation")
+    chk.require(mod is not None, "xeofs/linalg/_numpy/_rotation.py vanished")
+    from .common import returns_of
+    n = 0
+    for fname in ("_varimax", "_promax"):
+        fn = mod.functions.get(fname)
+        chk.require(fn is not None, f"_rotation.{fname} vanished")
+        ff = FuncFacts.of(fn)
+        for r in returns_of(fn):
+            if not (isinstance(r.value, ast.Tuple) and len(r.value.elts) >= 2 and isinstance(r.value.elts[1], ast.Name)):
+                continue
+            rname = r.value.elts[1].id
+            rn = ff.cfg.node_for(r)
+            rvalue = {repr(q) for q in ff.paths(r.value.elts[1], spine_only=True)}
+            prods = []
+            for p in ff.paths(r.value.elts[0], spine_only=True):
+                mms = [o for o in p.ops if o.kind == "binop" and o.name == "MatMult"]
+                # the product that forms the returned matrix: the last one on the way to the return value
+                if not mms or mms[-1].node in prods:
+                    continue
+                oth = mms[-1].other
+                same_name = isinstance(oth, ast.Name) and oth.id == rname
+                same_value = isinstance(oth, ast.Name) and {repr(q) for q in ff.paths(oth, spine_only=True)} == rvalue
+                if same_name or same_value:
+                    prods.append(mms[-1].node)
+            if not prods:
+                continue  # e.g. promax builds its result from varimax's (checked there) and its own power step
+            n += 1
+            stale = []
+            for m in prods:
+                mn = ff.cfg.node_for(m)
+                # a definition of the rotation matrix that can still execute after the product was formed
+                later = [d for ds in ff.rd.defs_at.values() for d in ds if d.var == rname and d.kind in ("assign", "unpack", "aug") and d.node != mn
+                         and ff.cfg.path_exists_avoiding(mn, d.node, set()) and ff.cfg.path_exists_avoiding(d.node, rn, set())]
+                if later:
+                    stale.append((m, later[0]))
+            chk.check(not stale, "KERNEL.consistent", fn, stale[0][0] if stale else prods[0], construct=f"{fname}: returned matrix = (de-normalised input) @ returned {rname}",
+                      why=(f"the returned rotated matrix is a product with {rname} formed BEFORE {rname} is updated again ({norm(stale[0][1].stmt)[:50]}): it belongs to the previous "
+                           "iteration's rotation, while the returned rotation matrix is the final one - rotated components and scores are out of step") if stale else "")
+    chk.require(n >= 1, "_rotation: no kernel returns a product with its rotation matrix (anchor vanished)")
 
 
 def _rotated_importance(chk, cls, key: str):
